@@ -148,6 +148,36 @@ class TableNames:
     def __init__(self, app_id: str, component: str) -> None:
         self.table_prefix: str = f"{sanitize_table_prefix(app_id)}__{component}"
 
+    def all_table_names(self) -> list[str]:
+        """Return exactly the table names owned by this component of this app."""
+        return [
+            value
+            for name, value in vars(self).items()
+            if name.isupper() and isinstance(value, str)
+        ]
+
+
+def delete_tables(sqlite_db_path: str | Path, table_names: list[str]) -> None:
+    """
+    Delete all data from exactly the given tables (those that exist).
+
+    Unlike a prefix match this can never touch the tables of another app whose
+    table names merely start with this app's prefix.
+
+    :param sqlite_db_path: Path to the SQLite database file
+    :param table_names: Exact names of the tables to empty
+    """
+    with create_sqlite_connection(sqlite_db_path) as conn:
+        cursor = conn.execute("SELECT name FROM sqlite_master WHERE type='table'")
+        try:
+            existing = {row[0] for row in cursor.fetchall()}
+        finally:
+            cursor.close()
+        for table in table_names:
+            if table in existing:
+                conn.execute(f"DELETE FROM {table}")
+        conn.commit()
+
 
 def delete_tables_with_prefix(sqlite_db_path: str | Path, prefix: str) -> None:
     """
